@@ -25,7 +25,7 @@ from typing import Any, List, Optional
 from hypothesis import strategies as st
 
 from ..core import CaseResult, Family, Violation
-from ..engines.memwire import Pair, Stuck, asyncssh
+from ..engines.memwire import Pair, asyncssh
 
 PROPERTY_ID = 'C19'
 LEVEL = 'exploration'
@@ -55,6 +55,8 @@ ASSUMPTIONS = ['asyncio FIFO callback order and fair asyncio.Lock',
                'readiness to select() with timeout 0 once data is queued']
 
 STDERR = asyncssh.EXTENDED_DATA_STDERR
+SIG_EXC = (asyncssh.SignalReceived, asyncssh.BreakReceived,
+           asyncssh.TerminalSizeChanged)
 ALPHA_B = 'ab\n<>01\x00\xff'
 ALPHA_T = 'ab\n<>01é€\U0001f600'
 ENCODINGS = [None, None, 'utf-8', 'utf-8', 'utf-16-le']
@@ -446,8 +448,7 @@ async def do_op(reader, enc, op):
             raise AssertionError(op)
     except asyncio.IncompleteReadError as exc:
         return ('inc', exc.partial, exc.expected)
-    except (asyncssh.SignalReceived, asyncssh.BreakReceived,
-            asyncssh.TerminalSizeChanged) as exc:
+    except SIG_EXC as exc:
         return ('exc', exc_desc(exc))
 
     return ('ret', v)
@@ -479,15 +480,6 @@ def op_labels(op, model: StreamModel, cfg, labels: set) -> None:
 
         if e is not None:
             labels.add('sep-found')
-            seplen = 1
-
-            if spec[0] == 's':
-                seplen = len(spec[1])
-            elif spec[0] == 't':
-                seplen = min(len(s) for s in spec[1] if r[:e].endswith(s))
-            else:
-                seplen = REGEXES[spec[1] % len(REGEXES)][1]
-
             if e > cfg['win']:
                 labels.add('sep-beyond-window')
         if spec[0] == 't':
@@ -626,12 +618,17 @@ def finish_case(h, labels, nontrivial_labels, models=()) -> CaseResult:
 def run_hang(h, coro, chunker, what: str):
     """h.run where quiescence before completion is a violation"""
 
-    try:
-        return h.run(coro, chunker)
-    except Stuck:
+    task = h.spawn(coro)
+    h.pump_until(task.done, chunker)
+
+    if not task.done():
+        # (cancelled so that a caller that goes on does not race with it)
+        task.cancel()
+        h.settle()
         raise Violation('hang', '%s never completed although the system is '
-                        'quiescent' % what, 'hang:' + what.split(' ')[0]) \
-            from None
+                        'quiescent' % what, 'hang:' + what.split(' ')[0])
+
+    return task.result()
 
 
 # ---------------------------------------------------------------------------
@@ -817,8 +814,7 @@ async def drain_coro(reader, model, enc, how, labels, eof_check):
                         # the shared window: let the other reader run
                         labels.add('empty-line')
                         await asyncio.sleep(0)
-            except (asyncssh.SignalReceived, asyncssh.BreakReceived,
-                    asyncssh.TerminalSizeChanged) as exc:
+            except SIG_EXC as exc:
                 model.check(['line'], ('exc', exc_desc(exc)))
                 continue
             break
@@ -877,7 +873,7 @@ def sep_strategy(alpha: str):
     tup = st.one_of(clean, clean, word.flatmap(ext)).map(lambda l: ['t', l])
     rex = st.tuples(st.integers(0, len(REGEXES) - 1),
                     st.integers(0, 2)).map(lambda t: ['r', t[0], t[1]])
-    return st.one_of(single, single, tup, rex), word
+    return st.one_of(single, single, tup, rex)
 
 
 def stream_strategy(alpha: str, pool, max_tokens: int):
@@ -943,7 +939,7 @@ def reader_strategy(tier: str):
         alpha = ALPHA_T if enc else ALPHA_B
         win = draw(st.sampled_from(WINDOWS))
         pkt = draw(st.sampled_from(PKTSIZES))
-        sepst, word = sep_strategy(alpha)
+        sepst = sep_strategy(alpha)
         seps = draw(st.lists(sepst, min_size=1, max_size=3))
         pool = [s for spec in seps if spec[0] in 'st'
                 for s in ([spec[1]] if spec[0] == 's' else spec[1])] or ['\n']
@@ -990,8 +986,6 @@ def reader_strategy(tier: str):
 
 NT_SRV = {'exc-between-data', 'inc-before-exc', 'n>window',
           'sep-spans-packet', 'data>window'}
-SIG_EXC = (asyncssh.SignalReceived, asyncssh.BreakReceived,
-           asyncssh.TerminalSizeChanged)
 
 
 def send_exc(chan, desc) -> None:
@@ -1141,11 +1135,12 @@ def srvreader_strategy(tier: str):
         alpha = ALPHA_T if enc else ALPHA_B
         win = draw(st.sampled_from([3, 8, 16, 64, 64, 4096, 2097152]))
         pkt = draw(st.sampled_from(PKTSIZES))
-        sepst, _ = sep_strategy(alpha)
+        sepst = sep_strategy(alpha)
         seps = draw(st.lists(sepst, min_size=1, max_size=3))
         pool = [s for spec in seps if spec[0] in 'st'
                 for s in ([spec[1]] if spec[0] == 's' else spec[1])] or ['\n']
-        data = stream_strategy(alpha, pool, 6).map(lambda s: ['d', s])
+        data = stream_strategy(alpha, pool, 6).map(
+            lambda s: ['d', s or 'a\n'])
         exc = st.one_of(
             st.sampled_from(['INT', 'TERM', 'HUP', 'USR1']).map(
                 lambda n: ['signal', n]),
@@ -1154,7 +1149,16 @@ def srvreader_strategy(tier: str):
             st.tuples(st.integers(0, 300), st.integers(0, 100),
                       st.sampled_from([0, 640]), st.sampled_from([0, 480]))
             .map(lambda t: ['size'] + list(t))).map(lambda d: ['x', d])
-        items = draw(st.lists(st.one_of(data, data, exc), max_size=8))
+        # 0..2 writes between two exceptions
+        slot = st.lists(data, max_size=2)
+        nexc = draw(st.sampled_from([0, 1, 1, 2, 2, 3, 4]))
+        items = []
+
+        for _ in range(nexc):
+            items += draw(slot)
+            items.append(draw(exc))
+
+        items += draw(slot)
         op = op_strategy(win, pkt, seps, False)
         return {'enc': enc, 'win': win, 'pkt': pkt, 'items': items,
                 'ops': draw(st.lists(op, max_size=max_ops)),
@@ -1325,6 +1329,7 @@ def run_process(case) -> CaseResult:
             mo.other, me.other = me, mo
             models = [mo, me]
             stalled = False
+            tainted = False
 
             def collect(op) -> int:
                 o, e = h.call(proc.collect_output)
@@ -1349,6 +1354,7 @@ def run_process(case) -> CaseResult:
                 elif op[0] == 'collect':
                     labels.add('collect')
                     took = collect(op)
+                    tainted = tainted or bool(took)
 
                     if took and not stalled and mo.rem() + me.rem():
                         # polling is the documented use: emptying the
@@ -1371,9 +1377,23 @@ def run_process(case) -> CaseResult:
                         # legitimately starve once stderr fills the window
                         continue
                     op = resolve(op, mo)
-                    out = run_hang(h, do_op(proc.stdout, enc, op), chunker,
-                                   'pre-' + op[0])
-                    mo.check(op, out)
+
+                    try:
+                        out = run_hang(h, do_op(proc.stdout, enc, op),
+                                       chunker, 'pre-' + op[0])
+                        mo.check(op, out)
+                    except Violation as v:
+                        # the same defect seen from the stream API: what
+                        # collect_output() took is still counted as buffered
+                        if not tainted or v.clause not in ('hang',
+                                                           'early-partial'):
+                            raise
+                        stalled = True
+                        mo.defer('collect-stall', op, 'after '
+                                 'collect_output(): ' + v.detail,
+                                 'collect_output:window-not-reopened')
+                        continue
+
                     labels.add('pre-read')
 
             want_out = mo.rem()
@@ -1548,7 +1568,6 @@ def process_strategy(tier: str):
 # ---------------------------------------------------------------------------
 
 NT_REDIR = {'data>window', 'late-redirect', 'proc-to-proc', 'big-stdin'}
-PIPE_MAX = 48000    # below the kernel pipe / socket buffer: writes never block
 
 
 class MemWriteTransport(asyncio.WriteTransport):
@@ -1589,6 +1608,33 @@ class MemWriteTransport(asyncio.WriteTransport):
 
     def set_write_buffer_limits(self, high=None, low=None):
         pass
+
+
+class AsyncMemFile:
+    """aiofiles-style object: read/write/close are coroutines"""
+
+    def __init__(self, data: bytes = b''):
+        self.data = bytearray(data)
+        self.pos = 0
+        self.closed = False
+        self.late = False
+
+    async def read(self, n: int = -1) -> bytes:
+        await asyncio.sleep(0)
+        end = len(self.data) if n < 0 else self.pos + n
+        out = bytes(self.data[self.pos:end])
+        self.pos += len(out)
+        return out
+
+    async def write(self, data: bytes) -> int:
+        await asyncio.sleep(0)
+        if self.closed:
+            self.late = True
+        self.data += data
+        return len(data)
+
+    async def close(self) -> None:
+        self.closed = True
 
 
 def run_io(h, coro, chunker, what: str, idle_limit: int = 4):
@@ -1664,6 +1710,8 @@ class Endpoints:
 
         if kind == 'devnull':
             return asyncssh.DEVNULL
+        if kind == 'afile':
+            return AsyncMemFile(raw)
         if kind == 'stream':
             sr = asyncio.StreamReader()
             sr.feed_data(raw)
@@ -1715,6 +1763,17 @@ class Endpoints:
             return asyncssh.DEVNULL, None
         if kind == 'stdout':
             return asyncssh.STDOUT, None
+        if kind == 'afile':
+            af = AsyncMemFile()
+
+            def read_afile():
+                if af.late:
+                    raise Violation('target', 'data written to the async '
+                                    'file after close',
+                                    'target:write-after-eof')
+                return bytes(af.data), af.closed
+
+            return af, read_afile
         if kind == 'stream':
             tr = MemWriteTransport()
             proto = asyncio.streams.FlowControlMixin(loop=self.h.loop)
@@ -1980,7 +2039,7 @@ def run_redirect(case) -> CaseResult:
                 try:
                     return await pair.c.create_process('A', **kw, **rkw)
                 except AssertionError:
-                    if 'stream' not in (kin, kout, kerr):
+                    if not {'stream', 'afile'} & {kin, kout, kerr}:
                         raise
                     # known: asyncio stream redirection needs the
                     # connection object, which is gone once the channel
@@ -2114,9 +2173,10 @@ def run_redirect(case) -> CaseResult:
 
 
 SRC_KINDS = ['path', 'pathlib', 'file', 'textfile', 'fd', 'pipe', 'pipefd',
-             'socket', 'stream', 'devnull', 'sshreader']
+             'socket', 'stream', 'afile', 'devnull', 'sshreader']
 TGT_KINDS = ['PIPE', 'path', 'pathlib', 'file', 'textfile', 'fd', 'pipe',
-             'pipefd', 'socket', 'stream', 'stream', 'devnull', 'sshwriter']
+             'pipefd', 'socket', 'stream', 'stream', 'afile', 'devnull',
+             'sshwriter']
 
 
 def redirect_strategy(tier: str):
@@ -2485,7 +2545,7 @@ FAMILIES = [
                              'final-iter', 'sep-found']},
            timeout_is_violation=True, case_timeout=120),
     Family('srvreader', run_srvreader, strategy=srvreader_strategy,
-           budget={'quick': 90, 'thorough': 2000},
+           budget={'quick': 110, 'thorough': 2000},
            required={'all': ['strict', 'weak', 'exc-raised',
                              'exc-between-data', 'inc-before-exc',
                              'end-close', 'end-eof']},
@@ -2499,9 +2559,15 @@ FAMILIES = [
                              'end-signal', 'end-close']},
            timeout_is_violation=True, case_timeout=120),
     Family('redirect', run_redirect, strategy=redirect_strategy,
-           budget={'quick': 110, 'thorough': 2500},
-           required={'all': ['data>window', 'late-redirect', 'proc-to-proc',
-                             'no-recv_eof', 'no-send_eof'] +
+           budget={'quick': 150, 'thorough': 2500},
+           # (25 endpoint kinds: each is only required of the thorough tier)
+           required={'quick': ['data>window', 'late-redirect', 'proc-to-proc',
+                               'no-recv_eof', 'no-send_eof', 'stdout-stream',
+                               'stdout-pipe', 'stdout-file', 'stdin-pipe',
+                               'stdin-file', 'stdin-stream'],
+                     'thorough': ['data>window', 'late-redirect',
+                                  'proc-to-proc', 'no-recv_eof',
+                                  'no-send_eof', 'big-stdin'] +
                      ['stdout-' + k for k in sorted(set(TGT_KINDS))] +
                      ['stdin-' + k for k in SRC_KINDS]},
            timeout_is_violation=True, case_timeout=120),
